@@ -514,6 +514,7 @@ def run(ctx: Any, prog: Program) -> None:
     ctx.shape('C10.B5', ok, bsp, glen[0] if glen else sv, 'the game-lump directory must record (offset, uncompressed length): read() reads `uncomp_size` bytes for uncompressed lumps', func='BSP.save', text='game lump (offset, length)')
     # ---- B10: compress_lzma / decompress_lzma ----------------------------------------------------------------------------------
     bf_ = prog.module('binformat')
+    fold_bf = Folder(prog, bf_)
     cz, dz = bf_.func('compress_lzma'), bf_.func('decompress_lzma')
     enc = [c for c in ast.walk(cz) if isinstance(c, ast.Call) and dotted(c.func) in ('lzma.compress', 'lzma.LZMACompressor')]
     packs_ = [c for c in ast.walk(cz) if isinstance(c, ast.Call) and isinstance(c.func, ast.Attribute) and c.func.attr == 'pack' and len(c.args) == 5]
@@ -561,7 +562,42 @@ def run(ctx: Any, prog: Program) -> None:
             want = f"({filt_name}['pb']*5+{filt_name}['lp'])*9+{filt_name}['lc']"
             ctx.check('C10.B10', psrc == want, bf_, pdef if pdef is not None else packs_[0], f'props byte is `{psrc}`; the decoder splits it as lc = p % 9, lp = (p // 9) % 5, pb = (p // 9) // 5, i.e. it must be `{want}`', func='compress_lzma', text='header props formula')
             dsrc = U(dz)
-            ctx.shape('C10.B10', ('lc = props % 9' in dsrc and 'props //= 9' in dsrc and 'pb = props // 5' in dsrc and 'lp = props % 5' in dsrc) or ('props, lc = divmod(props, 9)' in dsrc and 'pb, lp = divmod(props, 5)' in dsrc), bf_, dz, 'decompress_lzma splits props as lc = p % 9; p //= 9; pb = p // 5; lp = p % 5', func='decompress_lzma', text='props split')
+            # the decoder's split of the props byte, decided on its whole (finite) domain 0..224: the few assignments between the header unpack and
+            # the filter dictionary are interpreted over the syntax tree (engine/minieval.py) for every value and compared with lc = p % 9,
+            # lp = (p // 9) % 5, pb = (p // 9) // 5.  Only when that is not possible are the spellings of the split matched as fragments.
+            split_ok: Optional[bool] = None
+            try:
+                from engine.minieval import MiniEval, Raised, Unsupported
+                props_var = rnames_raw[rnames.index('props')]
+                fdict = next((d_ for d_ in ast.walk(dz) if isinstance(d_, ast.Dict) and any(isinstance(k_, ast.Constant) and k_.value == 'lc' for k_ in d_.keys)), None)
+                want_names = {k_.value: v_ for k_, v_ in zip(fdict.keys, fdict.values) if isinstance(k_, ast.Constant) and k_.value in ('lc', 'lp', 'pb')} if fdict is not None else {}
+                stmts_ = [st for st in dz.body if unp[0].lineno < st.lineno < (fdict.lineno if fdict is not None else 0) and isinstance(st, (ast.Assign, ast.AugAssign, ast.AnnAssign, ast.If))]
+                if len(want_names) == 3 and stmts_:
+                    split_ok = True
+                    consts_ = {}
+                    for nm_ in {x.id for st in stmts_ for x in ast.walk(st) if isinstance(x, ast.Name) and x.id.isupper()}:
+                        try:
+                            consts_[nm_] = fold_bf.global_(nm_)
+                        except Exception:
+                            pass
+                    for p_ in range(225):
+                        env_ = {n_: 0 for n_ in rnames_raw if n_}
+                        env_.update(consts_)
+                        env_[props_var] = p_
+                        me_ = MiniEval(env_)
+                        me_.run(stmts_)
+                        got_ = {k_: me_.ev(v_) for k_, v_ in want_names.items()}
+                        if got_ != {'lc': p_ % 9, 'lp': (p_ // 9) % 5, 'pb': (p_ // 9) // 5}:
+                            split_ok = False
+                            ctx.check('C10.B10', False, bf_, dz, f'decompress_lzma splits the props byte {p_} into {got_}; the encoder composes it as (pb * 5 + lp) * 9 + lc, i.e. lc = p % 9, lp = (p // 9) % 5, pb = (p // 9) // 5',
+                                      func='decompress_lzma', text='props split')
+                            break
+                    if split_ok:
+                        ctx.check('C10.B10', True, bf_, dz, 'props split verified for all 225 property bytes', func='decompress_lzma', text='props split')
+            except (Unsupported, Raised, ValueError, StopIteration, AttributeError):
+                split_ok = None
+            if split_ok is None:
+              ctx.shape('C10.B10', ('lc = props % 9' in dsrc and 'props //= 9' in dsrc and 'pb = props // 5' in dsrc and 'lp = props % 5' in dsrc) or ('props, lc = divmod(props, 9)' in dsrc and 'pb, lp = divmod(props, 5)' in dsrc), bf_, dz, 'decompress_lzma splits props as lc = p % 9; p //= 9; pb = p // 5; lp = p % 5', func='decompress_lzma', text='props split')
             sizes = (U(hdr.get('uncomp_size')) if hdr.get('uncomp_size') is not None else '', U(hdr.get('comp_size')) if hdr.get('comp_size') is not None else '')
             ctx.check('C10.B10', sizes[0] == f'len({cz.args.args[0].arg})' and sizes[1].startswith('len('), bf_, packs_[0], f'header sizes are {sizes}: uncompressed length of the input, then length of the encoded stream', func='compress_lzma', text='header sizes')
     # ---- B6 --------------------------------------------------------------------------------------------
@@ -582,6 +618,8 @@ def run(ctx: Any, prog: Program) -> None:
 
 
 MUTANTS = [
+    {'id': 'lzma_decoder_split_swapped', 'file': 'binformat.py', 'find': "    pb = props // 5\n    lp = props % 5\n", 'replace': "    lp = props // 5\n    pb = props % 5\n", 'expect': 'C10.B10'},
+    {'id': 'ok_lzma_decoder_split_divmod', 'file': 'binformat.py', 'find': "    lc = props % 9\n    props //= 9\n    pb = props // 5\n    lp = props % 5\n", 'replace': "    rest, lc = divmod(props, 9)\n    pb, lp = divmod(rest, 5)\n", 'expect': None},
     {'id': 'l4d2_header_rotated_in_helper', 'file': 'bsp.py', 'find': "    def save(self, filename: Optional[str] = None) -> None:", 'replace': "    def _lump_header(self, offset: int, length: int, version: int, fourcc: int) -> tuple:\n        header = (offset, length, version, fourcc)\n        if self.game_ver is GameVersion.L4D2:\n            header = header[-1:] + header[:-1]\n        return header\n\n    def save(self, filename: Optional[str] = None) -> None:", 'extra': [{'file': 'bsp.py', 'find': "                    if self.game_ver is GameVersion.L4D2:\n                        defer.set_data(lump_name, lump.version, file.tell(), len(lump_data), lump_fourcc)\n                    else:\n                        defer.set_data(lump_name, file.tell(), len(lump_data), lump.version, lump_fourcc)\n", 'replace': "                    defer.set_data(lump_name, *self._lump_header(file.tell(), len(lump_data), lump.version, lump_fourcc))\n"}], 'expect': 'C10.B4'},
     {'id': 'ok_l4d2_header_helper', 'file': 'bsp.py', 'find': "    def save(self, filename: Optional[str] = None) -> None:", 'replace': "    def _lump_header(self, offset: int, length: int, version: int, fourcc: int) -> tuple:\n        header = (offset, length, version, fourcc)\n        if self.game_ver is GameVersion.L4D2:\n            header = header[2:3] + header[:2] + header[3:]\n        return header\n\n    def save(self, filename: Optional[str] = None) -> None:", 'extra': [{'file': 'bsp.py', 'find': "                    if self.game_ver is GameVersion.L4D2:\n                        defer.set_data(lump_name, lump.version, file.tell(), len(lump_data), lump_fourcc)\n                    else:\n                        defer.set_data(lump_name, file.tell(), len(lump_data), lump.version, lump_fourcc)\n", 'replace': "                    defer.set_data(lump_name, *self._lump_header(file.tell(), len(lump_data), lump.version, lump_fourcc))\n"}], 'expect': None},
     {'id': 'lzma_header_dict_fitted_to_data', 'file': 'binformat.py', 'find': "        props, LZMA_FILT['dict_size'],  # Filter options encoded together.", 'replace': "        props, max(LZMA_DIC_MIN, 1 << (len(data).bit_length() - 1)),", 'expect': 'C10.B10'},
